@@ -235,6 +235,8 @@ def _cli_args(root, st, aux):
     r = os.path.join(root, st.get("root", "")) if st.get("root") else root
     if st.get("spell") == "slash":          # the same folder, typed with a trailing separator
         r = r + os.sep
+    elif st.get("spell") == "rel" and not st.get("rel_dest"):
+        r = os.path.relpath(r, os.path.dirname(root))          # relative to the working directory (= the parent of the root folder)
     if st.get("verbose") and op in ("create", "verify", "verifydh", "verifypl", "diff", "flatten", "info", "infosf"):
         cmd, a = _cli_args(root, {k: v for k, v in st.items() if k != "verbose"}, aux)
         return cmd, a + ["-v"]
@@ -384,9 +386,9 @@ def _run_impl(scn, scratch, keep=False, snap=False):
             from freezegun import freeze_time
 
             with freeze_time(clock):
-                outcome, out = impl.run_cli(cmd, argv, cwd=aux if st.get("rel_dest") else None)
+                outcome, out = impl.run_cli(cmd, argv, cwd=aux if st.get("rel_dest") else (os.path.dirname(root) if st.get("spell") == "rel" else None))
         else:
-            outcome, out = impl.run_cli(cmd, argv, cwd=aux if st.get("rel_dest") else None)
+            outcome, out = impl.run_cli(cmd, argv, cwd=aux if st.get("rel_dest") else (os.path.dirname(root) if st.get("spell") == "rel" else None))
         audit = impl.audit_stop() if snap else None
         after = manifest_listing(root)
         fs_changed = None
